@@ -211,6 +211,19 @@ Fixpoint root_has_disc (fuel : nat) (s : schema) (t : table) : bool :=
            end
   end.
 
+(* column and foreign-key attribute names of the tables above t in the DAO hierarchy *)
+Fixpoint inherited_attrs (fuel : nat) (s : schema) (t : table) : list string :=
+  match fuel with
+  | O => []
+  | S k => match t_base t with
+           | None => []
+           | Some b => match find (fun u => String.eqb (t_name u) b) (s_tables s) with
+                       | Some u => map col_name (t_builtin u ++ t_custom u) ++ map fk_name (t_fks u) ++ inherited_attrs k s u
+                       | None => []
+                       end
+           end
+  end.
+
 Definition class_obs (s : schema) (t : table) : sx :=
   let at_ := last_wins (attrs_of t) in
   let fks := flat_map (fun na => match snd na with AtFk k => [k] | _ => [] end) at_ in
@@ -241,7 +254,13 @@ Definition class_obs (s : schema) (t : table) : sx :=
            | Some kv => if String.eqb (snd kv) (quote (t_name t)) then 1 else 0
            | None => 2 end);
        SZ 1;
-       SL (sx_sort cols); SL (sx_sort refs); SL (sx_sort colls); SL (sx_sort stray) ].
+       SL (sx_sort cols); SL (sx_sort refs); SL (sx_sort colls);
+       (* SQLAlchemy combines a column of this table with a like-named column of an ancestor's table under one attribute *)
+       SL (sx_sort (stray ++ flat_map (fun na => match snd na with
+                                                  | AtCol _ | AtFk _ =>
+                                                      if str_in (fst na) (inherited_attrs (S (List.length (s_tables s))) s t)
+                                                      then [str_sx ("&" ++ fst na)] else []
+                                                  | _ => [] end) at_)) ].
 
 Definition pk_survives (t : table) : bool :=
   match find (fun na => String.eqb (fst na) (t_pk t)) (last_wins (attrs_of t)) with
